@@ -139,6 +139,7 @@ pub fn make_rig(fmt: Fmt, input: Rc<Vec<u8>>, cfg: &Config, faults: Vec<Fault>) 
         calls: vec![],
         budget: input.len() + 64,
         budget_tripped: false,
+        stalled: 0,
     }));
     let policy = RecPolicy::new(&cfg.policy, 0, pol_log.clone());
     let reader = AnyReader::new(fmt, src, cfg.cap, policy);
